@@ -135,16 +135,18 @@ func (c *Compiler) compileTryStmt(node *parser.TryStmt) error {
 		}
 	}
 
-	c.tryCatchIndex--
 	// always emit OpSetupFinally to cleanup
 	if node.Finally != nil {
 		finallyPos = c.emit(node.Finally, OpSetupFinally)
+		// the handler is still on the handler stack while finally block runs;
+		// return, break and continue in it must finalize it as well.
 		if err := c.Compile(node.Finally); err != nil {
 			return err
 		}
 	} else {
 		finallyPos = c.emit(node, OpSetupFinally)
 	}
+	c.tryCatchIndex--
 
 	c.changeOperand(optry, catchPos, finallyPos)
 	if node.Catch != nil {
